@@ -176,6 +176,10 @@ func runC02(r *Run) {
 		}
 	}
 
+	// ---- C02.8 the shipped action store refuses and remembers (restart safety rests on it)
+	r.Rule("C02.8", "the shipped ActionStore refuses a second action of a kind per (height, round) and a changed key, and keeps every action already recorded for the round when another is added (same rules as C16.2)")
+	actionStoreRules(r, "C02.8")
+
 	// ---- C02.7 confinement
 	n := 0
 	for _, fn := range w.FuncsInPkg("tmengine/internal/tmstate") {
